@@ -113,7 +113,9 @@ def rqLoop (esc : List (Char × Char)) : Nat → QMode → List Char → List Ch
   | _ + 1, .plain, [], acc => some acc.reverse
   | _ + 1, _, [], _ => none
   | f + 1, .plain, c :: rest, acc =>
-    if c = '\\' then
+    -- an active expansion with a quoting context of its own: the word is left to `_strip_quotes`
+    if c = '`' ∨ ((c = '$' ∨ c = '<' ∨ c = '>') ∧ rest.head? = some '(') ∨ (c = '$' ∧ rest.head? = some '{') then none
+    else if c = '\\' then
       match rest with
       | [] => rqLoop esc f .plain [] (c :: acc)
       | d :: r => rqLoop esc f .plain r (if d = '\n' then acc else d :: acc)
@@ -129,6 +131,7 @@ def rqLoop (esc : List (Char × Char)) : Nat → QMode → List Char → List Ch
     if c = '\'' then rqLoop esc f .plain rest acc else rqLoop esc f .single rest (c :: acc)
   | f + 1, .double, c :: rest, acc =>
     if c = '"' then rqLoop esc f .plain rest acc
+    else if c = '`' ∨ (c = '$' ∧ (rest.head? = some '(' ∨ rest.head? = some '{')) then none
     else if c = '\\' then
       match rest with
       | d :: r =>
@@ -160,21 +163,11 @@ def rqLoop (esc : List (Char × Char)) : Nat → QMode → List Char → List Ch
           else rqLoop esc f .ansi rest (c :: acc)
     else rqLoop esc f .ansi rest (c :: acc)
 
-/-- `p in s` on character lists -/
-def infixB (p : List Char) : List Char → Bool
-  | [] => p.isEmpty
-  | c :: r => p.isPrefixOf (c :: r) || infixB p r
-
-/-- a word with an expansion that has a quoting context of its own -/
-def hasOwnQuotingContext (v : String) : Bool :=
-  infixB ['$', '('] v.toList || Py.hasChar v '`' || infixB ['$', '{'] v.toList || infixB ['<', '('] v.toList || infixB ['>', '('] v.toList
-
 /-- `_remove_quotes`: the word a program receives for this source text (`esc` = `_ANSI_C_ESCAPES`, from T0) -/
 def removeQuotesWith (esc : List (Char × Char)) (v : String) : String :=
-  if hasOwnQuotingContext v then stripQuotes v
-  else match rqLoop esc (v.length + 2) .plain v.toList [] with
-    | some out => String.ofList out
-    | none => stripQuotes v
+  match rqLoop esc (v.length + 2) .plain v.toList [] with
+  | some out => String.ofList out
+  | none => stripQuotes v
 
 /-- `_remove_quotes` with the source's escape table -/
 def removeQuotes (v : String) : String := removeQuotesWith Generated.Quoting.ansiCEscapes v
@@ -252,6 +245,15 @@ def isDuration (t : String) : Bool :=
     | '.' :: frac => !frac.isEmpty && frac.all Py.isDecimal
     | _ => false
 
+/-- `_cluster_takes_next`, on the letters after the dash: the first value-taking letter is the last one -/
+def clusterLastTakes (flags : List String) : List Char → Bool
+  | [] => false
+  | c :: r => if flags.contains ("-" ++ String.singleton c) then r.isEmpty else clusterLastTakes flags r
+
+/-- `_cluster_takes_next`: a cluster of short options (`-vk`) whose first value-taking letter is its last -/
+def clusterTakesNext (flags : List String) (t : String) : Bool :=
+  Py.startsWith t "-" && !Py.startsWith t "--" && decide (t.length ≥ 3) && clusterLastTakes flags (t.toList.drop 1)
+
 /-- the wrapper argument-skipping loop: what remains is the inner command.  `fwa.flags` are the options of
     this wrapper whose argument is a separate word (`_WRAPPER_FLAGS_WITH_ARG[base]`), `fwa.duration` says
     the wrapper takes a DURATION (`timeout`): one number, with or without a unit, is then skipped (`seen_duration`);
@@ -261,7 +263,7 @@ def skipWrapperAux (fwa : WrapOpts) : Bool → Bool → List String → List Str
   | true, dur, _ :: ts => skipWrapperAux fwa false dur ts
   | false, dur, t :: ts =>
     if dur && (Py.isDigitStr t || Py.isDigitStr (Py.removeChar t '.') || isDuration t) then skipWrapperAux fwa false false ts
-    else if fwa.flags.contains t then skipWrapperAux fwa true dur ts
+    else if fwa.flags.contains t || clusterTakesNext fwa.flags t then skipWrapperAux fwa true dur ts
     else if Py.startsWith t "-" && t != "--" then skipWrapperAux fwa false dur ts
     else if t == "--" then ts
     else t :: ts
